@@ -30,7 +30,7 @@ def evaluate_matched_instance(
         ], "decision metric not contained in eval_metrics"
         assert decision_threshold is not None, "decision metric set but no threshold"
     # Initialize variables for True Positives (tp)
-    tp = len(matched_instance_pair.matched_instances)
+    tp = 0
     score_dict: dict[Metric, list[float]] = {m: [] for m in eval_metrics}
 
     reference_arr, prediction_arr = (
@@ -58,6 +58,8 @@ def evaluate_matched_instance(
                 metric_dict[decision_metric], decision_threshold
             )
         ):
+            # only instances that pass the decision threshold count as true positives
+            tp += 1
             for k, v in metric_dict.items():
                 score_dict[k].append(v)
 
